@@ -106,7 +106,7 @@ func (g *gateSet) fault(kind, key, cluster string) error {
 // error; while that attempt is being answered the alias moves to cluster B; the retry follows after the back-off.
 // The request was addressed to A (the cluster its host resolved to when it arrived): every review it causes must be
 // received by A, and a positive decision must be A's. A denial or an error is always acceptable.
-func (s *scenario) retryCase() {
+func (s *scenario) retryCase(authn bool) {
 	g, r := s.g, s.r
 	s.gates.r = r
 	var x string
@@ -141,11 +141,21 @@ func (s *scenario) retryCase() {
 	} else {
 		ferr = apierrors.NewTooManyRequests("slow down", 0)
 	}
-	hit, proceed := s.gates.armFault("sar", sarKeyFor(userName, ai), ferr)
+	kind, key, kindName := "sar", sarKeyFor(userName, ai), "authz"
+	if authn {
+		kind, key, kindName = "token", fmt.Sprintf("tok-retry-%d", s.caseN), "authn"
+	}
+	hit, proceed := s.gates.armFault(kind, key, ferr)
 	s.ops = append(s.ops, op{Kind: "retry-begin", Host: x, Owner: a.name, Attr: fmt.Sprintf("first review of %s / %s at %s fails with %q; the alias moves to %s before the error is returned", userName, attrSpecs[ai].name, a.name, ferr.Error(), b.name)})
 	m := s.log.mark()
 	done := make(chan outcome, 1)
-	go func() { done <- s.rawAuthz(x, userName, ai) }()
+	go func() {
+		if authn {
+			done <- s.rawAuthn(x, key)
+		} else {
+			done <- s.rawAuthz(x, userName, ai)
+		}
+	}()
 	var out outcome
 	moved := false
 	select {
@@ -169,13 +179,15 @@ func (s *scenario) retryCase() {
 		return
 	}
 	s.ops = append(s.ops, out.o)
-	r.Count("authz_requests", 1)
+	r.Count(kindName+"_requests", 1)
 	if !moved {
 		r.Count("retry_cases_without_review", 1)
 		return
 	}
 	reviews := s.log.since(m)
-	if len(reviews) >= 2 {
+	if len(reviews) >= 2 && authn {
+		r.Count("retry_cases_authn", 1)
+	} else if len(reviews) >= 2 {
 		r.Count("retry_cases", 1)
 		if strings.HasPrefix(attrSpecs[ai].name, "impersonate") {
 			r.Count("retry_cases_impersonation", 1)
@@ -186,17 +198,17 @@ func (s *scenario) retryCase() {
 	wit := s.witness(map[string]interface{}{"request_resolved_to": a.name, "host_moved_to": b.name})
 	for _, rv := range reviews {
 		if rv.Cluster == a.name && !rv.EpReady {
-			r.Violation("C12/authz/review-sent-to-endpoint-that-is-not-ready/retry-after-host-moved", fmt.Sprintf("review received by server %s, not a ready endpoint of %q", rv.Endpoint, a.name), wit)
+			r.Violation("C12/"+kindName+"/review-sent-to-endpoint-that-is-not-ready/retry-after-host-moved", fmt.Sprintf("review received by server %s, not a ready endpoint of %q", rv.Endpoint, a.name), wit)
 			break
 		}
 		if rv.Cluster != a.name {
-			r.Violation("C12/authz/review-sent-to-other-cluster/retry-after-host-moved",
+			r.Violation("C12/"+kindName+"/review-sent-to-other-cluster/retry-after-host-moved",
 				fmt.Sprintf("request to host %q resolved to cluster %q; its first review failed with a retriable error, the host moved to %q, and the retried review was sent to cluster %q", x, a.name, b.name, rv.Cluster), wit)
 			break
 		}
 	}
 	if out.positive && out.prov != a.name {
-		r.Violation("C12/authz/answer-of-other-cluster/retry-after-host-moved",
+		r.Violation("C12/"+kindName+"/answer-of-other-cluster/retry-after-host-moved",
 			fmt.Sprintf("request to host %q resolved to cluster %q was allowed by the answer of %q after a retry (%s)", x, a.name, orNone(out.prov), out.o.Result), wit)
 	}
 	s.ops = append(s.ops, op{Kind: "retry-end"})
